@@ -702,4 +702,157 @@ def seqCompsX {σ V R P : Type} [DecidableEq V] [Coba.C06.RewardFn R V] (w : Seq
   { envParams := w.base.envParams, lrnParams := w.base.lrnParams, valParams := w.base.valParams,
     chunkKey := w.base.chunkKey, init := fun l => (l, w.base.init l), valSeed := w.base.valSeed, eval := seqEvalX w }
 
+/-! ## phase 6: the built-in evaluator `RejectionCB` as an evaluation component (over the C05 stream)
+
+`RejectionCB(record, ope=None, cpct, cmax, cinit, seed).evaluate(env, learner)` (coba/evaluators/sequential.py:406-528):
+`rng = CobaRandom(seed)` with `seed = self._seed if self._seed is not None else store["experiment_seed"]` (the `seed`
+argument of `Comps.eval`), built **per evaluate**; the first 100 interactions are peeked; an empty environment yields
+nothing; the first interaction must have `context, action, reward, actions, probability`, a non-empty action list, the
+environment must not be batched and the learner must have `score` (otherwise a `CobaException`); the start value of the
+rejection multiplier is `c = cinit or min(filter(None, first_probs) + [cmax])` where `first_probs` are the logged
+propensities of the first 100 interactions followed by `(1-p)/(len(actions)-1)` of each (`ZeroDivisionError` for a
+one-action interaction).  Per interaction: `on_prob = score(context, actions, action)`; when `on_prob != 0` the ratio
+`log_prob/on_prob` is `insort`ed into `Q`; one `rng.random()` is drawn (C05's stream) and the interaction is accepted iff
+`random <= c*(on_prob/log_prob)`; an accepted interaction is learned (`learn(context, action, reward, on_prob)`), its row
+(`context, actions, action, reward, probability = on_prob` as far as recorded; an empty row is not yielded) is recorded and
+`c = min(percentile(Q, cpct, sort=False), cmax)`.  Numbers are exact rationals (the harness generates dyadic values, for
+which the float arithmetic of the code is exact).  Not modelled: `ope` other than `None`, `learning_info`, `time`. -/
+
+structure RejConfig where
+  record : List String
+  cpct : Rat
+  cmax : Rat
+  cinit : Option Rat
+
+/-- `bisect.insort` (= `insort_right`): behind every element `≤ x` -/
+def insortR (x : Rat) : List Rat → List Rat
+  | [] => [x]
+  | y :: ys => if x < y then x :: y :: ys else y :: insortR x ys
+
+/-- `percentile(values, p, sort=False)` of coba/statistics.py (no weights); `none` = the call raises
+(`IndexError` on `[]`, `AssertionError` for `p` outside `[0,1]`) -/
+def rejPercentile (q : List Rat) (p : Rat) : Option Rat :=
+  match q with
+  | [x] => some x
+  | _ =>
+    if p < 0 ∨ 1 < p then none
+    else if p = 0 then q.head?
+    else if p = 1 then q.getLast?
+    else
+      let i : Rat := p * (((q.length - 1 : Nat) : Int) : Rat)
+      let I : Nat := i.floor.toNat
+      if q.length = 0 then none
+      else if i = ((I : Int) : Rat) then q[I]?
+      else match q[I]?, q[I+1]? with
+        | some a, some b => some ((1 - (i - ((I : Int) : Rat))) * a + (i - ((I : Int) : Rat)) * b)
+        | _, _ => none
+
+/-- `first_probs` of the peeked interactions: the logged propensities and `(1-p)/(len(actions)-1)`; `none` = raises -/
+def rejFirstProbs {V R : Type} : List (Coba.C06.Dict (Coba.C06.Fld V R)) → Option (List Rat × List Rat)
+  | [] => some ([], [])
+  | d :: ds =>
+    match Coba.C06.Dict.get? d "probability", Coba.C06.Dict.get? d "actions", rejFirstProbs ds with
+    | some (.num p), some (.acts as), some (ps, qs) =>
+      if as.length = 1 then none else some (p :: ps, (1 - p) / ((((as.length : Nat) : Int) - 1 : Int) : Rat) :: qs)
+    | _, _, _ => none
+
+/-- `c = self._cinit or min(list(filter(None, first_probs)) + [self._cmax])` -/
+def rejStart {V R : Type} (rc : RejConfig) (peek : List (Coba.C06.Dict (Coba.C06.Fld V R))) : Option Rat :=
+  match rejFirstProbs peek with
+  | none => none
+  | some (ps, qs) =>
+    match rc.cinit with
+    | some c0 => if c0 ≠ 0 then some c0 else some (((ps ++ qs).filter (· ≠ 0)).foldl min rc.cmax)
+    | none => some (((ps ++ qs).filter (· ≠ 0)).foldl min rc.cmax)
+
+def rejKeys : List String := ["context", "action", "reward", "actions", "probability"]
+def rejPeek : Nat := 100
+
+/-- the recorded row of an accepted interaction (`out`), keys in the order the code inserts them -/
+def rejRow {V R : Type} (rc : RejConfig) (ctx : Option V) (acts : Option (List V)) (a : Option V) (r : Option Rat)
+    (onp : Rat) : Coba.C06.Row V R :=
+  (if rc.record.contains "context" then [("context", Coba.C06.Cell.val ctx)] else []) ++
+  (if rc.record.contains "actions" then [("actions", Coba.C06.Cell.acts acts)] else []) ++
+  (if rc.record.contains "action" then [("action", Coba.C06.Cell.val a)] else []) ++
+  (if rc.record.contains "reward" then [("reward", Coba.C06.Cell.num r)] else []) ++
+  (if rc.record.contains "probability" then [("probability", Coba.C06.Cell.num (some onp))] else [])
+
+/-- the five `pop`s of a loop pass; `none` = one of them raises `KeyError` / the field has a shape the code cannot use -/
+def rejFields {V R : Type} (d : Coba.C06.Dict (Coba.C06.Fld V R)) :
+    Option (Option V × Option (List V) × Option V × Option Rat × Option Rat) :=
+  match Coba.C06.getVal "context" (Coba.C06.Dict.get? d "context"), Coba.C06.getActs (Coba.C06.Dict.get? d "actions"),
+        Coba.C06.getVal "action" (Coba.C06.Dict.get? d "action"), Coba.C06.getNum "reward" (Coba.C06.Dict.get? d "reward"),
+        Coba.C06.getNum "probability" (Coba.C06.Dict.get? d "probability") with
+  | .ok ctx, .ok acts, .ok a, .ok r, .ok p => some (ctx, acts, a, r, p)
+  | _, _, _, _, _ => none
+
+/-- the loop of `RejectionCB.evaluate`: learner state `s`, generator state `g`, sorted ratios `q`, multiplier `c`, rows so
+far (reversed).  Returns the rows or "raised" and the state the learner object is left in (also when it raises). -/
+def rejLoop {σ V R : Type} (rc : RejConfig) (L : Coba.C06.Learner σ V) :
+    List (Coba.C06.Dict (Coba.C06.Fld V R)) → σ → Nat → List Rat → Rat → List (Coba.C06.Row V R) →
+      Except Err (List (Coba.C06.Row V R)) × σ
+  | [], s, _, _, _, acc => (.ok acc.reverse, s)
+  | d :: ds, s, g, q, c, acc =>
+    match rejFields d with
+    | none => (.error .raised, s)
+    | some (ctx, acts, a, r, p?) =>
+      let sc := L.score s ctx acts a
+      match p? with
+      | none => (.error .raised, sc.1)                       -- `log_prob/on_prob` / `on_prob/log_prob` on None
+      | some p =>
+        let q' := if sc.2 = 0 then q else insortR (p / sc.2) q
+        if p = 0 then (.error .raised, sc.1)                 -- ZeroDivisionError
+        else
+          let rnd := Coba.C05.random g 0 1
+          if rnd.2 ≤ c * (sc.2 / p) then
+            let s2 := L.learn sc.1 ctx a r (some sc.2) []
+            if rc.record.contains "reward" && r.isNone then (.error .raised, s2)      -- mean([None])
+            else
+              match rejPercentile q' rc.cpct with
+              | none => (.error .raised, s2)
+              | some pc =>
+                let row : Coba.C06.Row V R := rejRow rc ctx acts a r sc.2
+                rejLoop rc L ds s2 rnd.1 q' (min pc rc.cmax) (if row.isEmpty then acc else row :: acc)
+          else rejLoop rc L ds sc.1 rnd.1 q' c acc
+
+def rejDiscrete {V R : Type} (first : Coba.C06.Dict (Coba.C06.Fld V R)) : Bool :=
+  match Coba.C06.Dict.get? first "actions" with
+  | some (.acts (_ :: _)) => true
+  | _ => false
+
+/-- `RejectionCB.evaluate` on the interactions `env` of an environment (`bs = some n`: batched), learner in state `s`,
+generator freshly seeded to state `g` -/
+def rejEvaluate {σ V R : Type} (rc : RejConfig) (L : Coba.C06.Learner σ V) (bs : Option Nat)
+    (env : List (Coba.C06.Dict (Coba.C06.Fld V R))) (s : σ) (g : Nat) : Except Err (List (Coba.C06.Row V R)) × σ :=
+  match env with
+  | [] => (.ok [], s)
+  | first :: _ =>
+    if !(rejKeys.all (fun k => Coba.C06.Dict.has first k)) || !rejDiscrete first || bs.isSome || !L.hasScore then
+      (.error .raised, s)
+    else
+      match rejStart rc (env.take rejPeek) with
+      | none => (.error .raised, s)
+      | some c => rejLoop rc L env s g [] c []
+
+/-- a `SeqWorldX` in which an evaluator object may be a `RejectionCB` (`rej v = some rc`) instead of a `SequentialCB` -/
+structure SeqWorldR (σ V R P : Type) where
+  x : SeqWorldX σ V R P
+  rej : Nat → Option RejConfig
+
+def seqEvalR {σ V R P : Type} [DecidableEq V] [Coba.C06.RewardFn R V] (w : SeqWorldR σ V R P)
+    (v e : Nat) (ls : Nat × σ) (seed : Nat) : Except Err (List (Coba.C06.Row V R)) × (Nat × σ) :=
+  match w.rej v with
+  | none => seqEvalX w.x v e ls seed
+  | some rc =>
+    match w.x.base.envRows e with
+    | .error _ => (.error .raised, ls)
+    | .ok rows =>
+      let r := rejEvaluate rc (w.x.base.learner ls.1) (w.x.base.batch e) rows ls.2 (Coba.C05.normInt (Int.ofNat seed))
+      (r.1, (ls.1, r.2))
+
+def seqCompsR {σ V R P : Type} [DecidableEq V] [Coba.C06.RewardFn R V] (w : SeqWorldR σ V R P) :
+    Comps (Nat × σ) P (Coba.C06.Row V R) :=
+  { envParams := w.x.base.envParams, lrnParams := w.x.base.lrnParams, valParams := w.x.base.valParams,
+    chunkKey := w.x.base.chunkKey, init := fun l => (l, w.x.base.init l), valSeed := w.x.base.valSeed, eval := seqEvalR w }
+
 end Coba.C01
